@@ -63,6 +63,11 @@ func (f FilterSpec) Options() (lint.FilterOptions, error) {
 	return o, nil
 }
 
+// Empty reports whether the options select nothing to filter by (Filter then returns the receiver).
+func (f FilterSpec) Empty() bool {
+	return f.NameFilter == nil && len(f.IncludeNames) == 0 && len(f.ExcludeNames) == 0 && len(f.IncludeSources) == 0 && len(f.ExcludeSources) == 0
+}
+
 // Case describes one lint call.
 type Case struct {
 	Kind    gen.Kind     `json:"kind"`
